@@ -35,6 +35,8 @@
 (*     LH apart; draw returns what the last of them returns.                  *)
 (* (f) crlf  T and T' leave the same picture, return the same position and    *)
 (*     have the same bounding box.                                            *)
+(* (g) bounded  the bounding box the target reports changes neither the       *)
+(*     returned position nor what is painted inside that box.                 *)
 (* Not constrained (the property text does not say): a line that still ends   *)
 (* with CR (a lone CR at the end of the text, CR CR LF) in (a), (c), (d);     *)
 (* empty lines under Right / Center in (a); texts whose T' still contains     *)
@@ -55,6 +57,7 @@ LayoutWellFormed(o) ==
      /\ (o.lf.text = o.text => o.lf.map = o.whole.map /\ o.lf.ret = o.whole.ret /\ o.lf.bbox = o.whole.bbox)
      /\ (o.top.used = 1 => o.base # 0 /\ RCanonical(o.top.map))
      /\ (o.chains # <<>> => ~HasCRorLF(o.text) /\ o.align = 0)
+     /\ \A i \in 1..Len(o.small) : RCanonical(o.small[i].map)
      /\ \A i \in 1..Len(o.chains) :
           LET c == o.chains[i] IN
           /\ c.k \in 0..Len(o.text) /\ c.at2 = c.ret1 /\ RCanonical(c.map1) /\ RCanonical(c.map2)
@@ -145,10 +148,25 @@ ChainDetail(o, i) ==
   [rel |-> "chain", text |-> o.text, k |-> o.chains[i].k, ret |-> o.whole.ret, ret1 |-> o.chains[i].ret1,
    ret2 |-> o.chains[i].ret2, base |-> o.base]
 
+\* (g) the size the target reports does not matter: the same position is returned, every pixel inside the reported
+\*     box is painted as on an unbounded target, and outside of it nothing else than that is painted
+SmallFails(o, i) ==
+  LET b == o.small[i]
+      h == Hull(<< RBox(o.whole.map), RBox(b.map) >>)
+  IN   (IF b.ret = o.whole.ret THEN {} ELSE {"bounded_target_ret"})
+  \cup (IF \A p \in PointsOf(h) :
+            LET v == RGet(b.map, p[1], p[2])  w == RGet(o.whole.map, p[1], p[2]) IN
+            v = w \/ (v = NoCol /\ ~InRect(b.box, p))
+        THEN {} ELSE {"bounded_target_map"})
+SmallDetail(o, i) ==
+  [rel |-> "bounded_target", text |-> o.text, box |-> o.small[i].box, ret |-> o.small[i].ret, whole_ret |-> o.whole.ret,
+   painted |-> RBox(o.small[i].map), whole_painted |-> RBox(o.whole.map)]
+
 AllFails(o) ==
   UNION { RetFails(o, j) \cup AlignFails(o, j) : j \in 1..Len(o.lines) }
   \cup BaselineFails(o) \cup LinesFails(o) \cup CRLFFails(o)
   \cup UNION { ChainFails(o, i) : i \in 1..Len(o.chains) }
+  \cup UNION { SmallFails(o, i) : i \in 1..Len(o.small) }
 
 \* how many of the clauses were actually exercised by this observation (vacuity statistics)
 Exercised(o) ==
@@ -157,5 +175,6 @@ Exercised(o) ==
    baseline_shift |-> o.top.used,
    multiline |-> IF Len(o.lines) > 1 THEN 1 ELSE 0,
    crlf |-> IF CRLFConstrained(o) THEN 1 ELSE 0,
-   chain |-> IF o.font.s = 0 THEN Len(o.chains) ELSE 0]
+   chain |-> IF o.font.s = 0 THEN Len(o.chains) ELSE 0,
+   bounded |-> Len(o.small)]
 =============================================================================
